@@ -20,6 +20,7 @@ package main
 import (
 	"go/token"
 	"go/types"
+	"math"
 	"strings"
 
 	"golang.org/x/tools/go/ssa"
@@ -33,7 +34,10 @@ type gojaVM struct {
 
 type gojaObj struct{ vm *gojaVM }
 type gojaProg struct{ src string }
-type gojaVal struct{ s string }
+type gojaVal struct {
+	s    string
+	kind string // "" ordinary string result; "neginf" "posinf" "nan" "null" "undefined"
+}
 type gojaGlobalRef struct{ orig Value }
 
 const gojaPkg = "github.com/dop251/goja."
@@ -150,20 +154,74 @@ func init() {
 		if strings.Contains(prog.src, "throw") {
 			return TupleV{IfaceV{}, e.mkError("Error: thrown at <eval>")}
 		}
-		return TupleV{IfaceV{t: rtypeMarker, v: OpaqueV{gojaVal{res}}}, IfaceV{}}
+		// LIT:'text' — the script concatenates a string literal (whitespace inside it matters)
+		if i := strings.Index(prog.src, "LIT:'"); i >= 0 {
+			rest := prog.src[i+5:]
+			if j := strings.Index(rest, "'"); j >= 0 {
+				res += "|" + rest[:j]
+			}
+		}
+		kind := ""
+		if i := strings.Index(prog.src, "RESULT:"); i >= 0 {
+			kind = prog.src[i+7:]
+			if j := strings.IndexAny(kind, " ;"); j >= 0 {
+				kind = kind[:j]
+			}
+		}
+		return TupleV{IfaceV{t: rtypeMarker, v: OpaqueV{gojaVal{s: res, kind: kind}}}, IfaceV{}}
 	}
-	for _, n := range []string{"IsNaN", "IsInfinity", "IsNull", "IsUndefined"} {
-		externals[gojaPkg+n] = func(e *Exec, _ *frame, _ token.Pos, _ *ssa.Function, a []Value) Value { return e.ts.False }
+	kindOf := func(v Value) string {
+		if iv, ok := v.(IfaceV); ok && iv.t != nil {
+			if o, ok := iv.v.(OpaqueV); ok {
+				if gv, ok := o.x.(gojaVal); ok {
+					return gv.kind
+				}
+			}
+		}
+		return ""
+	}
+	for n, kinds := range map[string][]string{"IsNaN": {"nan"}, "IsInfinity": {"neginf", "posinf"}, "IsNull": {"null"}, "IsUndefined": {"undefined"}} {
+		kinds := kinds
+		externals[gojaPkg+n] = func(e *Exec, _ *frame, _ token.Pos, _ *ssa.Function, a []Value) Value {
+			k := kindOf(a[0])
+			for _, x := range kinds {
+				if k == x {
+					return e.ts.True
+				}
+			}
+			return e.ts.False
+		}
 	}
 }
-
 
 // gojaValueMethod: interface method calls on a model goja.Value.
 func (e *Exec) gojaValueMethod(v gojaVal, name string) Value {
 	switch name {
 	case "Export":
+		switch v.kind {
+		case "neginf":
+			return IfaceV{t: types.Typ[types.Float64], v: FloatV{math.Inf(-1)}}
+		case "posinf":
+			return IfaceV{t: types.Typ[types.Float64], v: FloatV{math.Inf(1)}}
+		case "nan":
+			return IfaceV{t: types.Typ[types.Float64], v: FloatV{math.NaN()}}
+		case "null", "undefined":
+			return IfaceV{}
+		}
 		return IfaceV{t: types.Typ[types.String], v: e.strConst(v.s)}
 	case "String":
+		switch v.kind {
+		case "neginf":
+			return e.strConst("-Infinity")
+		case "posinf":
+			return e.strConst("Infinity")
+		case "nan":
+			return e.strConst("NaN")
+		case "null":
+			return e.strConst("null")
+		case "undefined":
+			return e.strConst("undefined")
+		}
 		return e.strConst(v.s)
 	}
 	panic(unsupported("goja.Value method " + name))
